@@ -1669,7 +1669,7 @@ func callBin(n *node) {
 		// Store function call in frame for deferred execution.
 		n.exec = func(f *frame) bltn {
 			val := make([]reflect.Value, l+1)
-			val[0] = value(f)
+			val[0] = fixArg(value(f)) // The function value is fixed when the defer statement executes.
 			for i, v := range values {
 				val[i+1] = fixArg(getBinValue(getMapType, v, f))
 			}
